@@ -80,7 +80,7 @@ def cases(tier, seed):
             for xi in xis:
                 out.append({"kind": "force", "carrier": carrier, "fkind": fk, "xi": xi})
     # several conservative elements in one system (the total energy is the sum)
-    for combo in ("spring+force", "spring+spring+force"):
+    for combo in ("spring+force", "spring+spring+force", "spring+spring:two_anchors"):
         out.append({"kind": "combo", "combo": combo})
     # gyroscopic terms
     out.append({"kind": "gyro", "what": "rb"})
@@ -328,6 +328,15 @@ def check_combo(case):
     sc.carriers = [c0, c1]
     tpi = TwoPointInteraction(c0.obj, c1.obj, B_r_CP1=0.3 * weyl(seed, 21, 3), name="tpi_a")
     system.add(tpi, Spring(tpi, 10.0, l_ref=1.1, compliance_form=False, name="spring_a"))
+    if case["combo"].endswith("two_anchors"):
+        # the point mass is also tied to two DIFFERENT fixed frames: both interactions have the same local coordinates
+        # (frames carry none), so objects that shared state keyed on (t, q) would mix up their directions
+        from cardillo.discrete import Frame
+
+        for nm, rA, k, lr in (("anchor_c", np.array([2.0, 0.5, -1.0]), 6.0, 1.3), ("anchor_d", np.array([-1.5, 1.0, 0.8]), 9.0, 0.7)):
+            fr = Frame(r_OP=rA, name=nm)
+            tp = TwoPointInteraction(fr, c1.obj, name="tpi_" + nm)
+            system.add(fr, tp, Spring(tp, k, l_ref=lr, compliance_form=False, name="spring_" + nm))
     if case["combo"].count("spring") == 2:
         tpi2 = TwoPointInteraction(system.origin, c1.obj, name="tpi_b")
         system.add(tpi2, Spring(tpi2, 4.0, l_ref=2.0, compliance_form=False, name="spring_b"))
